@@ -881,6 +881,35 @@ def f_facet_range_trcl(deck, rng):
     return out
 
 
+def f_facet_zero_trcl(deck, rng):
+    '''Facet 0 in a cell that carries a TRCL (looked up in the MCNP surface
+    dictionary, which refuses it).'''
+    out = []
+    for k, cell0 in enumerate(deck['cells']):
+        if 'trcl' not in cell0['opts'] or not cell0['lits']:
+            continue
+        d = _clone(deck)
+        cell = d['cells'][k]
+        j = rng.randrange(len(cell['lits']))
+        cell['lits'][j][1] = 0
+        out.append((d, f'cell {cell["id"]} literal {lit_text(cell["lits"][j])}'))
+    return out
+
+
+def f_tr_card_arity(deck, rng):
+    '''TR card with a number of entries that is no transformation (4, 5, 7,
+    8, 10, 11 entries).'''
+    out = []
+    for k in range(len(deck['trs'])):
+        d = _clone(deck)
+        tr = d['trs'][k]
+        full = tr['entries'] if len(tr['entries']) >= 12 else \
+            tr['entries'][:3] + _twelve(rng)[3:]
+        tr['entries'] = full[:rng.choice([4, 5, 7, 8, 10, 11])]
+        out.append((d, f'tr{tr["id"]} with {len(tr["entries"])} entries'))
+    return out
+
+
 def _array_cells(deck):
     return [k for k, c in enumerate(deck['cells'])
             if re.search(r'fill=-?\d+:', c['opts'])]
@@ -1025,6 +1054,8 @@ FAULTS = {
     'facet_range': (f_facet_range, ['facets']),
     'facet_zero': (f_facet_zero, ['facets']),
     'facet_range_trcl': (f_facet_range_trcl, ['trcl', 'facets']),
+    'facet_zero_trcl': (f_facet_zero_trcl, ['trcl']),
+    'tr_card_arity': (f_tr_card_arity, ['tr']),
     'fill_array_len': (f_fill_array_len, ['lat']),
     'fill_array_plus3': (f_fill_array_plus3, ['lat']),
     'imp_unequal': (f_imp_unequal, []),
